@@ -1914,3 +1914,163 @@ func H_C05_restoredForks(nkeys int) {
 		}
 	}
 }
+
+// ---- a call disabled per element inside a mapped pipeline ----
+
+const vrDisMapSrc = `
+stage FLAGS(
+    in  int    n,
+    out bool[] cs,
+    out int[]  vs,
+    src comp   "nothing",
+)
+
+stage WORK(
+    in  int  value,
+    out int  result,
+    src comp "nothing",
+)
+
+pipeline P3(
+    in  int  value,
+    out int  rx,
+)
+{
+    call WORK(
+        value = self.value,
+    )
+
+    return (
+        rx = WORK.result,
+    )
+}
+
+pipeline INNER(
+    in  bool c,
+    in  int  value,
+    out int  rx,
+)
+{
+    call P3(
+        value = self.value,
+    ) using (
+        disabled = self.c,
+    )
+
+    return (
+        rx = P3.rx,
+    )
+}
+
+pipeline TOP(
+    in  int[]  values,
+    out int[]  rx,
+)
+{
+    call FLAGS(
+        n = 1,
+    )
+
+    map call INNER(
+        c     = split FLAGS.cs,
+        value = split VALUES,
+    )
+
+    return (
+        rx = INNER.rx,
+    )
+}
+
+call TOP(
+    values = [
+        1,
+        2,
+    ],
+)
+`
+
+func vrDisMapGraph(static bool) *vrReal {
+	disableUniquification = false
+	key, values := "vrDisMapGraphDyn", "FLAGS.vs"
+	if static {
+		key, values = "vrDisMapGraphStatic", "self.values"
+	}
+	return verifCached(key, func() any {
+		rt := &Runtime{Config: &RuntimeOptions{JobMode: "local", VdrMode: VdrDisable}, mrjob: "/m/mrjob", adaptersPath: "/m/adapters"}
+		src := strings.Replace(vrDisMapSrc, "split VALUES", "split "+values, 1)
+		if !static {
+			src = strings.Replace(src, "    in  int[]  values,\n", "", 1)
+			src = strings.Replace(src, "call TOP(\n    values = [\n        1,\n        2,\n    ],\n)", "call TOP()", 1)
+		}
+		_, _, ps, err := rt.instantiatePipeline([]byte(src), "/m/p.mro", "ps", "/ps", nil, "none", nil, false, true, context.Background())
+		if err != nil {
+			panic("fixture does not instantiate: " + err.Error())
+		}
+		n := func(name string) *Node { return ps.node.top.allNodes["ID.ps.TOP."+name] }
+		return &vrReal{ps, n("FLAGS"), n("INNER.P3.WORK"), nil}
+	}).(*vrReal)
+}
+
+// H_C01_disabledInMapped(static): a pipeline INNER is mapped over two
+// elements - a literal array of the top-level call (static = 1) or an array a
+// stage produced (static = 0) - together with an array of flags a stage
+// produced; inside it the call P3 is disabled by its element's flag.
+//
+//	C03: WORK runs exactly for the elements whose flag is false.
+//	C01: it receives its element; the top-level output holds, per element, the
+//	     result of its WORK or null where the call was disabled.
+func H_C01_disabledInMapped(static int) {
+	w := vrDisMapGraph(static != 0)
+	flags, work := w.gen, w.work
+	vrOuts = map[*Metadata]LazyArgumentMap{}
+	var off [2]bool
+	cs := []byte{'['}
+	for i := range off {
+		off[i] = verifBool("element disabled")
+		if i > 0 {
+			cs = append(cs, ',')
+		}
+		if off[i] {
+			cs = append(cs, "true"...)
+		} else {
+			cs = append(cs, "false"...)
+		}
+	}
+	cs = append(cs, ']')
+	vrOuts[flags.forks[0].metadata] = LazyArgumentMap{"cs": json.RawMessage(cs), "vs": json.RawMessage("[1,2]")}
+	work.expandForks(true)
+	verifCover("forks of the conditionally disabled call expanded")
+	verifAssert(len(work.forks) == 2, "C03: one fork per element")
+	if len(work.forks) != 2 {
+		return
+	}
+	var results [2]json.RawMessage
+	for i, f := range work.forks {
+		dis, err := f.disabled()
+		verifAssert(err == nil, "C03: the disabling condition of every fork resolves")
+		verifAssert(dis == off[i], "C03: a fork is disabled exactly when its element's flag says so")
+		if !dis {
+			_, args, err := work.resolveInputs(f.forkId, false)
+			verifAssert(err == nil, "C01: the inputs of an enabled fork resolve")
+			if err == nil {
+				verifAssert(verifBytesEq(vrEncode(args), []byte(`{"value":`+string(rune('1'+i))+`}`)), "C01: the fork for element i receives element i")
+			}
+			results[i] = vrDigit("work result")
+			vrOuts[f.metadata] = LazyArgumentMap{"result": results[i]}
+		} else {
+			results[i] = json.RawMessage("null")
+		}
+	}
+	outs, _, err := w.ps.node.resolvePipelineOutputs(nil)
+	if static != 0 && verifKnown("C01-static-map-dynamic-disable") {
+		// known finding: these outputs do not resolve
+		return
+	}
+	verifAssert(err == nil && outs != nil, "C01: the pipeline's outputs resolve once every enabled stage has finished")
+	if err != nil || outs == nil {
+		return
+	}
+	want := vrCat([]byte(`{"rx":[`), results[0], []byte(","), results[1], []byte(`]}`))
+	verifCover("outputs with disabled elements resolved")
+	verifAssert(verifBytesEq(vrEncode(outs), want), "C01: per element, the top-level output holds the result of the call, or null where the call was disabled")
+}
